@@ -342,11 +342,21 @@ def features(spec, f0=1.0):
         if node[0] == "E":
             if any(v == INF for _, v in node[2]):
                 feats.add("inf-value")
+            if any(v == 0.0 for _, v in node[2]):
+                feats.add("zero-value")
             if is_container_spec(node):
                 feats.add("container")
                 for _, sub in full_subs(node).items():
                     if sub is not None:
                         rec(sub, False, True)
+                        try:
+                            z = ref(sub, f0)
+                            if z is OPEN:
+                                feats.add("subcircuit-open-by-value")
+                            elif z == 0 and has_elements(sub):
+                                feats.add("subcircuit-short-by-value")
+                        except NotEvaluable:
+                            pass
             return
         if node[0] == "P" and len(node[1]) == 1:
             feats.add("one-branch-parallel")
